@@ -258,6 +258,7 @@ impl Calendar {
                 resolved_fields.day,
             )
             .map_err(TemporalError::from_icu4x)?;
+        self.check_arithmetic_year(&calendar_date, resolved_fields.era_year.arithmetic_year)?;
         let iso = self.0.date_to_iso(&calendar_date);
         PlainDate::new_with_overflow(
             iso.year().extended_year,
@@ -321,6 +322,7 @@ impl Calendar {
                 resolved_fields.day,
             )
             .map_err(TemporalError::from_icu4x)?;
+        self.check_arithmetic_year(&calendar_date, resolved_fields.era_year.arithmetic_year)?;
         let iso = self.0.date_to_iso(&calendar_date);
         PlainYearMonth::new_with_overflow(
             iso.year().extended_year,
@@ -402,6 +404,22 @@ impl Calendar {
         }
         let calendar_date = self.0.date_from_iso(iso_date.to_icu4x());
         self.arithmetic_year(self.0.year(&calendar_date).extended_year)
+    }
+
+    /// A `year` given next to `era` and `eraYear` has to name the same year.
+    fn check_arithmetic_year(
+        &self,
+        calendar_date: &<AnyCalendar as icu_calendar::Calendar>::DateInner,
+        arithmetic_year: Option<i32>,
+    ) -> TemporalResult<()> {
+        let Some(expected) = arithmetic_year else {
+            return Ok(());
+        };
+        if self.arithmetic_year(self.0.year(calendar_date).extended_year) != expected {
+            return Err(TemporalError::range()
+                .with_message("year does not agree with era and eraYear."));
+        }
+        Ok(())
     }
 
     /// The calendar's arithmetic year for the extended year reported by `ICU4X`.
